@@ -64,6 +64,18 @@ FamHeaders(u) ==
           s \in {"", "*", "!"}, c \in 0..Len(Codes), k \in DescKinds, hc \in HComments, g \in {1, 2} }
     \cup { Case("headers-trigger", TriggerDescriptions[k.i].trig, << [BaseTx EXCEPT !.st = s, !.desc = k] >>) :
           s \in {"", "*"}, k \in TrigDescs }
+    \* a header WITHOUT description, then a posting whose commodity is a lower-case word (the lexer's plain-text token
+    \* outside a header): whatever the tokenizer remembers from the header line must not leak into the next line
+    \cup { Case("headers-bare", "", << [BaseTx EXCEPT !.st = s, !.code = c, !.desc = [kind |-> "none", i |-> 1, j |-> 1], !.cmt = hc, !.date2 = d2,
+                                                      !.posts[1].amt = <<[Amt(5, 0, 9) EXCEPT !.neg = ng]>>] >>) :
+          s \in {"", "*", "!"}, c \in {0, 1}, hc \in {NoCmt, Cmt(1, <<>>), Cmt(0, <<1>>)}, d2 \in {<<>>, <<D(2024, 1, 20)>>}, ng \in BOOLEAN }
+    \* ... and then a directive whose argument is plain text for the lexer (a lower-case commodity, a format sub-directive,
+    \* an account), with postings that have no such token in between
+    \cup { Case("headers-bare", "", << [Tx(D(2024, 1, 15), [kind |-> "none", i |-> 1, j |-> 1], << Post(3, <<Amt(5, 0, 1)>>), Post(2, <<>>) >>) EXCEPT !.st = s, !.code = c], dr >>) :
+          s \in {"", "*"}, c \in {0, 1},
+          dr \in { [dir |-> "commodity", comm |-> 9, form |-> "plain", fmt |-> 1], [dir |-> "commodity", comm |-> 4, form |-> "sub", fmt |-> 1],
+                   [dir |-> "commodity", comm |-> 5, form |-> "sub", fmt |-> 2], [dir |-> "account", acct |-> 1, cmt |-> <<>>],
+                   [dir |-> "P", date |-> D(2024, 1, 20), comm |-> 9, a |-> Amt(15, 1, 4)] } }
 
 (* every description of <= MaxEntries (at most 3) characters over DescAlphabet, after a bare date, a status and a code *)
 RECURSIVE CSeqs(_, _)
